@@ -530,7 +530,9 @@ func (r *resolver) applyDeviation(y *Module, d *Deviation) error {
 			}
 		}
 		for _, unique := range d.Add.unique {
-			target.(*List).unique = append(target.(*List).unique, unique)
+			// (on a copy: the expansions of a grouping share the list their unique statements are kept in)
+			l := target.(*List)
+			l.unique = append(append(make([][]string, 0, len(l.unique)+1), l.unique...), unique)
 		}
 	}
 	if d.Replace != nil {
